@@ -494,3 +494,66 @@ Section Search.
       rewrite (equals_refl pat F) in N. discriminate.
   Qed.
 End Search.
+
+(* ---- the parent is the SMALLEST enclosing list: no point strictly between
+   the parent j and its child k encloses k ---- *)
+Definition compose_ok (t : item) : Prop :=
+  forall j m, 0 <= j < size t -> 0 <= m < size (nth_point t j) ->
+    nth_point t (j + m) = nth_point (nth_point t j) m.
+
+Lemma compose_list l : Forall compose_ok l ->
+  forall k m, 0 <= k < sizes l -> 0 <= m < size (nthl l k) ->
+    nthl l (k + m) = nth_point (nthl l k) m.
+Proof.
+  induction 1 as [|c r Hc _ IH]; intros k m Hk Hm.
+  - rewrite sizes_nil in Hk. lia.
+  - rewrite sizes_cons in Hk. pose proof (size_pos c). pose proof (sizes_nonneg r).
+    rewrite (nthl_cons c r k) in * by lia. rewrite nthl_cons by lia.
+    destruct (k <? size c) eqn:E.
+    + pose proof (subtree_fits c k ltac:(lia)).
+      replace (k + m <? size c) with true by lia. apply Hc; lia.
+    + replace (k + m <? size c) with false by lia.
+      replace (k + m - size c) with (k - size c + m) by lia. apply IH; lia.
+Qed.
+
+(* EXTRACT composes: point m of point j is point j + m *)
+Theorem nth_point_compose t : compose_ok t.
+Proof.
+  induction t as [l IH|n|v|n] using item_ind'; intros j m Hj Hm.
+  - destruct (j =? 0) eqn:E.
+    + replace j with 0 by lia. rewrite nth_point_0. reflexivity.
+    + rewrite size_list in Hj. rewrite (nth_point_unfold (IList l) j) in * by lia. rewrite E in *.
+      rewrite nth_point_unfold by lia. replace (j + m =? 0) with false by lia.
+      replace (j + m - 1) with (j - 1 + m) by lia. apply compose_list; [exact IH|lia|lia].
+  - cbn [size] in Hj. replace j with 0 by lia. rewrite nth_point_0. reflexivity.
+  - cbn [size] in Hj. replace j with 0 by lia. rewrite nth_point_0. reflexivity.
+  - cbn [size] in Hj. replace j with 0 by lia. rewrite nth_point_0. reflexivity.
+Qed.
+
+Lemma points_list_app a b : points_list (a ++ b) = points_list a ++ points_list b.
+Proof.
+  induction a as [|c r IH]; [reflexivity|].
+  rewrite <- app_comm_cons, !points_list_cons, IH, app_assoc. reflexivity.
+Qed.
+Lemma nthl_app_l a b i : 0 <= i < sizes a -> nthl (a ++ b) i = nthl a i.
+Proof.
+  intro H. unfold nthl. rewrite points_list_app. apply app_nth1.
+  pose proof (length_points_list a). lia.
+Qed.
+
+Theorem parent_is_smallest t j k : 0 <= j < size t -> child_at t j k ->
+  forall j', j < j' < k -> j' + size (nth_point t j') <= k.
+Proof.
+  intros Hj [pre [post [C K]]] j' Hj'.
+  pose proof (sizes_nonneg pre) as Sp.
+  assert (Sz : size (nth_point t j) = 1 + sizes pre + size (nth_point t k) + sizes post).
+  { rewrite C, size_list, sizes_app, sizes_cons. lia. }
+  pose proof (size_pos (nth_point t k)). pose proof (sizes_nonneg post).
+  pose proof (nth_point_compose t j (j' - j) Hj ltac:(lia)) as Q.
+  replace (j + (j' - j)) with j' in Q by lia.
+  rewrite Q, C, nth_point_unfold by lia.
+  replace (j' - j =? 0) with false by lia.
+  rewrite nthl_app_l by lia.
+  pose proof (fits_list pre ltac:(apply Forall_forall; intros; apply subtree_fits) (j' - j - 1) ltac:(lia)).
+  lia.
+Qed.
